@@ -376,6 +376,9 @@ func (g structReprMapReprBuilderGenerator) EmitNodeAssemblerMethodAssignNode(w i
 				if err != nil {
 					return err
 				}
+				if v.IsAbsent() {
+					continue // an absent value (an unset optional field of a typed struct) is not an entry.
+				}
 				if err := na.AssembleKey().AssignNode(k); err != nil {
 					return err
 				}
